@@ -60,6 +60,33 @@ PROPS = {
 }
 
 
+PURE_MODELLED = ["modelled, not verified: Rust slice indexing semantics (start <= end <= len; inclusive end of usize::MAX overflows), hex::decode, {:02X} formatting, usize::from_str, char handling of str"]
+
+PROPS["C15"] = {
+    "quick": [("hex15", 60, 12)],
+    "thorough": [("hex15", 3000, 16)],
+    "pure": True,
+    "rule": "exhaustive small scope: every length 0..=12 (thorough 16) x {from_vec, heap, inline with zero / 0xFF / counting padding} x every index 0..len+2 and usize::MAX(-1) x every (start,end) of the six range kinds over the same set, x all pairs for ==, plus boundary and seeded random 64-bit patterns and random byte strings; each line also carries the answer of the real byte slice; distinct_nontrivial = distinct operation lines executed",
+    "modelled": PURE_MODELLED,
+}
+PROPS["C16"] = {
+    "quick": [("concat16", 0, 12)],
+    "thorough": [("concat16", 0, 18)],
+    "pure": True,
+    "model_variants": ["--concat-repaired"],
+    "rule": "exhaustive: every pair of lengths 0..=12 (thorough 18) in every combination of the representations (from_vec, heap, inline with three paddings); distinct_nontrivial = distinct concat lines executed",
+    "modelled": PURE_MODELLED,
+    "partial": ["Props.C16.concat_partial (the code as found satisfies the law only outside the defect class; the full law is proved for concatRepaired and refuted for concatAsFound)"],
+}
+PROPS["C17"] = {
+    "quick": [("label17", 600, 3)],
+    "thorough": [("label17", 20000, 4)],
+    "pure": True,
+    "rule": "all strings of length 0..=3 (thorough 4) over a 14-character alphabet (ASCII letters/digits, + -, alpha, rho, nu, e-acute, a 4-byte character, blank), seeded random strings up to length 10, index texts on both sides of every boundary, canonical label values (Greek, Alpha boundaries, random Str of 2..8) with print-parse and kid() lookups on a real graph; distinct_nontrivial = distinct lines executed",
+    "modelled": PURE_MODELLED,
+}
+
+
 def nontrivial(prop, h):
     first, last, coll, readds, overw, nextids, judged = h[:7]
     kind = PROPS[prop].get("nontrivial", "any")
